@@ -332,6 +332,10 @@ where
     {
         let start_time = std::time::Instant::now();
 
+        // Runs left behind by a previous sort (cleanup_temp_files = false) are not part of this
+        // input, and their file names (<instance>_<run index>) are about to be reused
+        self.temp_files.clear();
+
         // Phase 1: Generate sorted runs using replacement selection
         self.generate_runs(input)?;
 
